@@ -152,6 +152,9 @@ class RemapColumnsOp(BaseOp):
         for x in map_list:
             if len(x) != required_len:
                 return [f"all map_list arrays must be of length {str(required_len)}."]
+        overlap = set(parameters['source_columns']).intersection(set(parameters['destination_columns']))
+        if overlap:
+            return [f"the source_columns and destination_columns must be disjoint but share {str(overlap)}."]
         missing = set(parameters.get('integer_sources', [])) - set(parameters['source_columns'])
         if missing:
             return [f"the integer_sources {str(missing)} are missing from source_columns."]
